@@ -148,6 +148,8 @@ class Model:
             try:
                 self.trees[name] = ast.parse(src, filename=str(p))
                 register_functions(self.trees[name])
+                from .minieval import TREE_INFO
+                TREE_INFO[id(self.trees[name])] = (name, parts[-1:] != [] and p.name == '__init__.py', self.trees)
             except SyntaxError as e:
                 raise AnalysisError(f'{p}: does not parse: {e}')
             self.paths[name] = p
